@@ -67,6 +67,8 @@ where
     type V = DefaultVariables<T>;
 
     fn update(&mut self, variables: &DefaultVariables<T>, data: &DefaultProblemData<T>) {
+        #[cfg(clarabel_verif)]
+        crate::verif::emit(crate::verif::Event::Yield);
         // various products used multiple times
         let qx = data.q.dot(&variables.x);
         let bz = data.b.dot(&variables.z);
